@@ -58,6 +58,11 @@ wires = st.sampled_from([None, None, "length", "chunked", "close", "gzip", "leng
 contexts = st.sampled_from(["plain", "plain", "block", "ctor+block", "nested", "ctor-only", "empty-block"])
 
 
+# replies longer than the transport's read size, written in raw UTF-8 (an extra envelope member carries the padding)
+pads = st.one_of(st.just(None), st.just(None), st.just(None),
+                 st.tuples(st.integers(0, 3), st.sampled_from([1000, 1020, 2040, 3070, 5000]), st.sampled_from(["é", "€", "😀", "x"])))
+
+
 @st.composite
 def error_objects(draw):
     e = {}
@@ -97,6 +102,7 @@ def error_cases(draw):
         "n": draw(st.integers(1, 4)),
         "repeat": draw(st.sampled_from([0, 0, 1, 2])),
         "wire": draw(wires), "ctx": draw(contexts), "sizes": draw(st.lists(st.integers(1, 40), max_size=4)),
+        "pad": draw(pads),
     }
 
 
@@ -111,6 +117,7 @@ def success_cases(draw):
         "pos": draw(st.integers(0, 3)),
         "n": draw(st.integers(1, 4)),
         "wire": draw(wires), "ctx": draw(contexts), "sizes": draw(st.lists(st.integers(1, 40), max_size=4)),
+        "pad": draw(pads),
     }
 
 
@@ -150,6 +157,11 @@ def access(case, reply):
     path = case["path"]
     # the reply as it would come out of the JSON parser
     text = json.dumps(reply)
+    if case.get("pad") and path != "cfe":
+        shift, n, ch = case["pad"]
+        padded = dict(reply)
+        padded["padding"] = "a" * shift + ch * n
+        text = json.dumps(padded, ensure_ascii=False)
     if path == "cfe":
         parsed = json.loads(text)
         ret = J.check_for_errors(parsed)
@@ -193,8 +205,8 @@ def access(case, reply):
     n = max(case["n"], 1)
     pos = case["pos"] % n
     items = [{"jsonrpc": "2.0", "id": i, "result": ["ok", i]} for i in range(n)]
-    items[pos] = reply
-    set_reply(json.dumps(items))
+    items[pos] = json.loads(text) if case.get("pad") else reply
+    set_reply(json.dumps(items, ensure_ascii=not case.get("pad")))
     mc = J.MultiCall(proxy)
     for i in range(n):
         getattr(mc, "m%d" % i)(i)
@@ -207,11 +219,15 @@ def access(case, reply):
         return results[pos]
 
     def read_iter():
-        it = iter(results)
-        for i in range(pos):
-            v = next(it)
-            if v != ["ok", i]:
-                fail("C06/batch-neighbour", "neighbour result %d is %r" % (i, v))
+        try:
+            it = iter(results)
+            for i in range(pos):
+                v = next(it)
+                if v != ["ok", i]:
+                    fail("C06/batch-neighbour", "neighbour result %d is %r" % (i, v))
+        except J.ProtocolError as ex:
+            # the successful replies in front of the failing position are results to be returned
+            fail("C06/batch-error-early", "iterating the batch raised %r before the %d successful results in front of position %d were delivered" % (ex, pos, pos))
         return next(it)
 
     first, second = (read_index, read_iter) if path == "batch-index" else (read_iter, read_index)
@@ -329,6 +345,8 @@ def oracle(case):
         nt = True
     if case.get("repeat") and path.startswith("batch"):
         classes.append("repeated-access")
+    if case.get("pad") and path != "cfe":
+        classes.append("long-raw-utf8-reply")
     if path != "cfe":
         classes.append("wire:%s" % (case.get("wire") or "canned"))
         classes.append("context:%s" % case.get("ctx", "plain"))
